@@ -266,3 +266,100 @@ fn wire_variant_signature(bytes: &[u8], fmt: Format) -> Option<String> {
         }
     }
 }
+
+// ------------------------------------------------------------------------------------------------
+// construction routes: the same collection handed over by value, as a slice and by reference must
+// give one and the same dynamic value (equal, same signature, same hash, same bytes)
+
+fn routes<T>(name: &str, esig: &str, items: Vec<T>, want: &RVal, obs: &mut Obs) -> CaseResult
+where
+    T: zvariant::Type + Into<Value<'static>> + Clone + std::fmt::Debug,
+{
+    use zvariant::Array;
+    let by_value = Value::Array(Array::from(items.clone()));
+    let by_slice = Value::Array(Array::from(&items[..]));
+    let by_ref = Value::Array(Array::from(&items));
+    let by_new = Value::new(items.clone());
+    let by_new_ref = Value::new(&items[..]);
+    let want_sig = format!("a{esig}");
+    let all = [("Array::from(Vec)", &by_value), ("Array::from(&[T])", &by_slice), ("Array::from(&Vec)", &by_ref), ("Value::new(Vec)", &by_new), ("Value::new(&[T])", &by_new_ref)];
+    let refbytes = vcore::refmodel::dbus::marshal(&RVal::V(Box::new((want.sig(), want.clone()))), false, 0).bytes;
+    for (how, v) in all {
+        let describe = || format!("{how} of {name} {items:?}");
+        if v.value_signature().to_string() != want_sig {
+            return Err(Failure::new(format!("reports signature {} instead of {want_sig}; {}", v.value_signature(), describe())));
+        }
+        if *v != by_value || hv(v) != hv(&by_value) || v.cmp(&by_value) != Ordering::Equal {
+            return Err(Failure::new(format!("differs from the value built from the owned vector ({:?} vs {:?}); {}", v, by_value, describe())));
+        }
+        let r = from_value(v).map_err(|e| Failure::new(e.0))?;
+        if !r.eq_unordered(want) {
+            return Err(Failure::new(format!("holds {} instead of {}; {}", r.show(), want.show(), describe())));
+        }
+        let enc = zvariant::to_bytes(ctx(Format::DBus, false, 0), v).map_err(|e| Failure::new(format!("does not encode: {e}; {}", describe())))?;
+        if enc.bytes() != &refbytes[..] {
+            return Err(Failure::new(format!("encodes to {} instead of {}; {}", vcore::src::hex(enc.bytes()), vcore::src::hex(&refbytes), describe())));
+        }
+    }
+    obs.label(&format!("routes:{name}"));
+    obs.nontrivial(fnv(format!("{name}{items:?}").as_bytes()));
+    obs.sample("construction-routes", || format!("Vec<{name}> {items:?}"));
+    Ok(())
+}
+
+pub fn c08_routes_case(src: &mut Src, obs: &mut Obs) -> CaseResult {
+    let n = src.below(4);
+    match src.below(6) {
+        0 => {
+            let items: Vec<u8> = (0..n).map(|_| gen_u64(src) as u8).collect();
+            let want = RVal::A(RSig::Y, items.iter().map(|x| RVal::Y(*x)).collect());
+            routes("u8", "y", items, &want, obs)
+        }
+        1 => {
+            let items: Vec<u32> = (0..n).map(|_| gen_u64(src) as u32).collect();
+            let want = RVal::A(RSig::U, items.iter().map(|x| RVal::U(*x)).collect());
+            routes("u32", "u", items, &want, obs)
+        }
+        2 => {
+            let items: Vec<String> = (0..n).map(|_| gen_string(src)).collect();
+            let want = RVal::A(RSig::S, items.iter().map(|x| RVal::S(x.clone())).collect());
+            routes("String", "s", items, &want, obs)
+        }
+        3 => {
+            let items: Vec<(u8, u64)> = (0..n).map(|_| (src.u8(), gen_u64(src))).collect();
+            let want = RVal::A(RSig::St(vec![RSig::Y, RSig::T]), items.iter().map(|x| RVal::St(vec![RVal::Y(x.0), RVal::T(x.1)])).collect());
+            routes("(u8, u64)", "(yt)", items, &want, obs)
+        }
+        4 => {
+            let items: Vec<Vec<u16>> = (0..n).map(|_| (0..src.below(3)).map(|_| src.u16()).collect()).collect();
+            let want = RVal::A(RSig::A(Box::new(RSig::Q)), items.iter().map(|x| RVal::A(RSig::Q, x.iter().map(|y| RVal::Q(*y)).collect())).collect());
+            routes("Vec<u16>", "aq", items, &want, obs)
+        }
+        _ => {
+            // elements that are dynamic values themselves (signature "av"), also a value holding a value
+            let mut items: Vec<Value<'static>> = vec![];
+            let mut want = vec![];
+            for _ in 0..n {
+                let (z, r) = match src.below(4) {
+                    0 => {
+                        let x = gen_u64(src) as u32;
+                        (Value::U32(x), RVal::V(Box::new((RSig::U, RVal::U(x)))))
+                    }
+                    1 => {
+                        let s = gen_string(src);
+                        (Value::from(s.clone()), RVal::V(Box::new((RSig::S, RVal::S(s)))))
+                    }
+                    2 => {
+                        let x = src.u8();
+                        (Value::Value(Box::new(Value::U8(x))), RVal::V(Box::new((RSig::V, RVal::V(Box::new((RSig::Y, RVal::Y(x))))))))
+                    }
+                    _ => (Value::from(vec![1u8, 2]), RVal::V(Box::new((RSig::A(Box::new(RSig::Y)), RVal::A(RSig::Y, vec![RVal::Y(1), RVal::Y(2)]))))),
+                };
+                items.push(z);
+                want.push(r);
+            }
+            let want = RVal::A(RSig::V, want);
+            routes("Value", "v", items, &want, obs)
+        }
+    }
+}
